@@ -155,6 +155,10 @@ func ParSignedDataFromProto(typ DutyType, data *pbv1.ParSignedData) (_ ParSigned
 		return ParSignedData{}, errors.New("unsupported duty type")
 	}
 
+	if err := checkSignedData(signedData); err != nil {
+		return ParSignedData{}, errors.Wrap(err, "invalid signed data")
+	}
+
 	return ParSignedData{
 		SignedData: signedData,
 		ShareIdx:   int(data.GetShareIdx()),
@@ -252,9 +256,49 @@ func UnsignedDataSetFromProto(typ DutyType, set *pbv1.UnsignedDataSet) (_ Unsign
 		if err != nil {
 			return nil, err
 		}
+
+		if err = checkUnsignedData(resp[PubKey(pubkey)]); err != nil {
+			return nil, errors.Wrap(err, "invalid unsigned data")
+		}
 	}
 
 	return resp, nil
+}
+
+// checkSignedData returns an error if the decoded signed data is structurally incomplete.
+//
+// Data provided by peers may unmarshal without error but still contain nil sub-objects (json null)
+// or unknown versions, which panic when accessed later by components that do not recover.
+// It exercises the accessors used by the core workflow so that such data is rejected here instead.
+// It must be called from a function that recovers panics.
+func checkSignedData(data SignedData) error {
+	if _, ok := data.(Signature); !ok {
+		if _, err := data.MessageRoot(); err != nil {
+			return errors.Wrap(err, "message root")
+		}
+	}
+
+	_ = data.Signature()
+
+	if _, err := data.Clone(); err != nil {
+		return errors.Wrap(err, "clone")
+	}
+
+	return nil
+}
+
+// checkUnsignedData returns an error if the decoded unsigned data is structurally incomplete, see checkSignedData.
+// It must be called from a function that recovers panics.
+func checkUnsignedData(data UnsignedData) error {
+	if _, err := data.MarshalJSON(); err != nil {
+		return errors.Wrap(err, "marshal")
+	}
+
+	if _, err := data.Clone(); err != nil {
+		return errors.Wrap(err, "clone")
+	}
+
+	return nil
 }
 
 func recoverPanicErr(r any) error {
